@@ -85,6 +85,11 @@ def cases(seed):
     out.append(C("c09-unreachable-cycle-ok", accepted_runs("C09", {"zinoma.yml": yml({"ok": B("ok"), "a": B("a", dependencies=["b"]), "b": B("b", dependencies=["a"])})}, ["ok"], ["ok"], "a cycle that is not reachable from the request does not matter"), "only reachable references matter"))
     out.append(C("c09-closure-exact", accepted_runs("C09", {"zinoma.yml": yml({"p": B("p", output=OUT), "c": B("c", input=["p.output"]), "d": B("d", dependencies=["c"]), "u": B("u"), "v": B("v", dependencies=["u"])})}, ["d"], ["p", "c", "d"], "closure through dependencies and X.output"), "exactly the reachable targets run"))
     out.append(C("c09-ref-in-own-project", accepted_runs(["C09", "C19"], {"zinoma.yml": yml({"t": B("root-t"), "top": B("top", dependencies=["lib::entry"])}, name="root", imports={"lib": "lib"}), "lib/zinoma.yml": yml({"entry": B("entry", dependencies=["t"]), "t": B("lib-t")}, name="lib")}, ["top"], ["top", "entry", "lib-t"], "a bare reference in lib's file means lib's own target"), "references resolve in the project of the referencing target"))
+    dia = {"zinoma.yml": yml({"gen": B("root-gen"), "top": B("top", dependencies=["lib::a"])}, name="root", imports={"lib": "lib"}), "lib/zinoma.yml": yml({"a": B("a", dependencies=["b", "c"]), "b": B("b", dependencies=["gen"]), "c": B("c", dependencies=["gen"], input=["gen.output"]), "gen": B("lib-gen", output=OUT)}, name="lib")}
+    out.append(C("c09-diamond-in-import", accepted_runs(["C09", "C19"], dia, ["top"], ["top", "a", "b", "c", "lib-gen"], "several bare references to gen inside lib all mean lib's gen, although the root has a gen too"), "diamond of bare references in an imported project"))
+    dia2 = dict(dia)
+    dia2["zinoma.yml"] = yml({"gen": B("root-gen"), "top": B("top", dependencies=["lib::a"])}, imports={"lib": "lib"})
+    out.append(C("c09-diamond-in-import-unnamed-root", accepted_runs(["C09", "C19"], dia2, ["top"], ["top", "a", "b", "c", "lib-gen"], "the same with an unnamed root project"), "diamond, unnamed root"))
     out.append(C("c09-output-ref-in-own-project", accepted_runs(["C09", "C19", "C13"], {"zinoma.yml": yml({"gen": B("root-gen", output=OUT), "top": B("top", dependencies=["lib::use"])}, name="root", imports={"lib": "lib"}), "lib/zinoma.yml": yml({"use": B("use", input=["gen.output"]), "gen": B("lib-gen", output=OUT)}, name="lib")}, ["top"], ["top", "use", "lib-gen"], "a bare X.output reference in lib's file means lib's own target"), "X.output resolves in the project of the referencing target"))
     out.append(C("c09-qualified-output-ref", accepted_runs(["C09", "C19", "C13"], {"zinoma.yml": yml({"gen": B("root-gen", output=OUT), "top": B("top", input=["lib::gen.output"])}, name="root", imports={"lib": "lib"}), "lib/zinoma.yml": yml({"gen": B("lib-gen", output=OUT)}, name="lib")}, ["top"], ["top", "lib-gen"], "a qualified X.output reference names the other project's target"), "qualified X.output"))
     # ---- C14: strict validation ------------------------------------------------------------------------
